@@ -190,8 +190,12 @@ fn minimize_excluding(ctx: &Context, env: &HashMap<ExprRef, Val>, model: &miter:
                         let mut st = SymbolValueStore::default();
                         for (s, _, v) in model {
                             match miter::to_baa(v) {
-                                baa::Value::BitVec(b) => st.define_bv(*s, &b),
-                                baa::Value::Array(a) => st.define_array(*s, a),
+                                baa::Value::BitVec(b) => {
+ let _ = st.define_bv(*s, &b);
+ }
+                                baa::Value::Array(a) => {
+ let _ = st.define_array(*s, a);
+ }
                             }
                         }
                         eval_bv_expr(ctx, &st, k).is_equal(&miter::baa_bv(x, *w))
@@ -214,8 +218,12 @@ fn real_eval_val(ctx: &Context, model: &miter::Model, e: ExprRef) -> Option<Val>
     let mut st = SymbolValueStore::default();
     for (s, _, v) in model {
         match miter::to_baa(v) {
-            baa::Value::BitVec(b) => st.define_bv(*s, &b),
-            baa::Value::Array(a) => st.define_array(*s, a),
+            baa::Value::BitVec(b) => {
+ let _ = st.define_bv(*s, &b);
+ }
+            baa::Value::Array(a) => {
+ let _ = st.define_array(*s, a);
+ }
         }
     }
     Some(real_to_val(&eval_expr(ctx, &st, e)))
@@ -276,8 +284,12 @@ fn validation_part(rep: &mut Report, tier: Tier, seed: u64) {
                                     for (s, v) in full.iter() {
                                         // sparse and dense array values alternate
                                         match if idx % 2 == 1 { miter::to_baa_dense(v) } else { miter::to_baa(v) } {
-                                            baa::Value::BitVec(b) => st.define_bv(*s, &b),
-                                            baa::Value::Array(a) => st.define_array(*s, a),
+                                            baa::Value::BitVec(b) => {
+ let _ = st.define_bv(*s, &b);
+ }
+                                            baa::Value::Array(a) => {
+ let _ = st.define_array(*s, a);
+ }
                                         }
                                     }
                                     if is_bv && idx % 2 == 0 { real_to_val(&baa::Value::BitVec(eval_bv_expr(&ctx, &st, e))) } else if !is_bv && idx % 2 == 0 { real_to_val(&baa::Value::Array(eval_array_expr(&ctx, &st, e))) } else { real_to_val(&eval_expr(&ctx, &st, e)) }
@@ -288,11 +300,13 @@ fn validation_part(rep: &mut Report, tier: Tier, seed: u64) {
                                     let mut st = SymbolValueStore::default();
                                     for (s, v) in full.iter() {
                                         match v {
-                                            Val::BV(_, w) => st.define_bv(*s, &miter::baa_bv(&bigeval::mask(*w), *w)),
+                                            Val::BV(_, w) => {
+ let _ = st.define_bv(*s, &miter::baa_bv(&bigeval::mask(*w), *w));
+ }
                                             Val::Arr { iw, dw, .. } => {
                                                 let filler = Val::Arr { iw: *iw, dw: *dw, default: bigeval::mask(*dw), map: Default::default() };
                                                 if let baa::Value::Array(a) = miter::to_baa(&filler) {
-                                                    st.define_array(*s, a)
+                                                    let _ = st.define_array(*s, a);
                                                 }
                                             }
                                         }
@@ -300,17 +314,19 @@ fn validation_part(rep: &mut Report, tier: Tier, seed: u64) {
                                     for (k, (s, v)) in full.iter().enumerate() {
                                         match miter::to_baa(v) {
                                             baa::Value::BitVec(b) => {
+                                                // results (if any) are ignored: the harness must keep compiling when a
+                                                // method starts to return something
                                                 if k % 2 == 0 {
-                                                    st.update_bv(*s, &b)
+                                                    let _ = st.update_bv(*s, &b);
                                                 } else {
-                                                    st.update(*s, baa::Value::BitVec(b))
+                                                    let _ = st.update(*s, baa::Value::BitVec(b));
                                                 }
                                             }
                                             baa::Value::Array(a) => {
                                                 if k % 2 == 0 {
-                                                    st.update_array(*s, a)
+                                                    let _ = st.update_array(*s, a);
                                                 } else {
-                                                    st.update(*s, baa::Value::Array(a))
+                                                    let _ = st.update(*s, baa::Value::Array(a));
                                                 }
                                             }
                                         }
@@ -384,8 +400,12 @@ fn validation_part(rep: &mut Report, tier: Tier, seed: u64) {
                                 let mut st = SymbolValueStore::default();
                                 for (s, _, v) in model.iter() {
                                     match if idx % 2 == 1 { miter::to_baa_dense(v) } else { miter::to_baa(v) } {
-                                        baa::Value::BitVec(b) => st.define_bv(*s, &b),
-                                        baa::Value::Array(a) => st.define_array(*s, a),
+                                        baa::Value::BitVec(b) => {
+ let _ = st.define_bv(*s, &b);
+ }
+                                        baa::Value::Array(a) => {
+ let _ = st.define_array(*s, a);
+ }
                                     }
                                 }
                                 let got = eval_bv_expr(&ctx, &st, e);
@@ -417,8 +437,12 @@ fn validation_part(rep: &mut Report, tier: Tier, seed: u64) {
                                                 let mut st = SymbolValueStore::default();
                                                 for (s, _, v) in model2.iter() {
                                                     match miter::to_baa(v) {
-                                                        baa::Value::BitVec(b) => st.define_bv(*s, &b),
-                                                        baa::Value::Array(a) => st.define_array(*s, a),
+                                                        baa::Value::BitVec(b) => {
+ let _ = st.define_bv(*s, &b);
+ }
+                                                        baa::Value::Array(a) => {
+ let _ = st.define_array(*s, a);
+ }
                                                     }
                                                 }
                                                 !eval_bv_expr(&ctx, &st, k).is_equal(&miter::baa_bv(&kx, kw))
